@@ -404,3 +404,47 @@ def _value(v):
         bits = int(v[2])
         return n - (1 << bits) if n >> (bits - 1) else n
     raise SolverError('value %r' % (v,))
+
+
+def crosscheck(tr_factory, assumptions, prop_builder, expected, timeout=300):
+    """Re-decide the kernel's path queries with cvc5 and z3 5.x from a
+    standalone script; returns {solver: dict(answers=..., agree=bool)}."""
+    import os
+    import shutil
+    import tempfile
+    from .solver import run_file
+    tr = tr_factory()
+    paths = tr.paths()
+    lines = ['(set-logic ALL)']
+    lines += tr.decls
+    for a in list(assumptions) + tr.side:
+        lines.append('(assert %s)' % a)
+    for pc, val in paths:
+        lines.append('(push 1)')
+        for c in pc:
+            lines.append('(assert %s)' % c)
+        prop = prop_builder(val)
+        if prop is not None:
+            lines.append('(assert (not %s))' % prop)
+        lines.append('(check-sat)')
+        lines.append('(pop 1)')
+    d = tempfile.mkdtemp(prefix='vsym-kern-')
+    out = {}
+    try:
+        path = os.path.join(d, 'k.smt2')
+        with open(path, 'w') as f:
+            f.write('\n'.join(lines) + '\n')
+        for name, cmd in (('cvc5-1.0.3', ['cvc5', '--incremental']),
+                          ('z3-5.1.0', ['z3-new'])):
+            if shutil.which(cmd[0]) is None:
+                out[name] = 'not installed'
+                continue
+            ans = run_file(cmd, path, timeout=timeout)
+            if ans is None:
+                out[name] = 'timeout'
+                continue
+            ans = [a for a in ans if a in ('sat', 'unsat', 'unknown')]
+            out[name] = dict(answers=ans, agree=ans == list(expected))
+    finally:
+        shutil.rmtree(d, ignore_errors=True)
+    return out
